@@ -1741,7 +1741,7 @@ func (t *tScreen) parseRune(buf *bytes.Buffer, evs *[]Event) (bool, bool) {
 		}
 		if nOut != 0 {
 			r, _ := utf8.DecodeRune(utf[:nOut])
-			if r != utf8.RuneError {
+			if r != utf8.RuneError || t.isReplacementChar(b[:nIn]) {
 				mod := ModNone
 				if t.escaped {
 					mod = ModAlt
@@ -1758,6 +1758,15 @@ func (t *tScreen) parseRune(buf *bytes.Buffer, evs *[]Event) (bool, bool) {
 	}
 	// Looks like potential escape
 	return true, false
+}
+
+// isReplacementChar tells U+FFFD that was really sent (pasted text may well
+// contain it) from U+FFFD the decoder substituted for input it could not
+// make sense of: only the former is the locale's encoding of that character.
+func (t *tScreen) isReplacementChar(src []byte) bool {
+	t.encoder.Reset()
+	enc, _, err := transform.Bytes(t.encoder, []byte(string(utf8.RuneError)))
+	return err == nil && bytes.Equal(enc, src)
 }
 
 func (t *tScreen) scanInput(buf *bytes.Buffer, expire bool, stopQ chan struct{}) {
